@@ -1,4 +1,4 @@
-import ProductMD.Proofs.ManifestIO
+import ProductMD.Proofs.RulesIndep
 /-!
 # C03 — RPM, module and extra-file manifests survive a write/read cycle unchanged
 
@@ -67,37 +67,33 @@ theorem C03_roundtrip_payload (k : Kind) (v0 : PyVal) (c : ComposeT) (p : PyVal)
   rw [dumpDoc_eq k _ c.norm (PyVal.canon p) hn]
   exact ⟨_, rfl, rfl, pyEq_canon p hp, rfl, rfl, dumps_docOf_canon k c p hp⟩
 
-/-- **Round trip, any history** — for every kind of manifest, every history of add calls, every compose section in
-normal form (`final` only with a label: `c.norm = c`) that validates, and whatever the header version was:
-`dumps` succeeds; `loads` of that text succeeds; the re-read mapping is the built mapping with sorted keys, i.e.
-Python-equal to it; the compose section is the same; a second `dumps` gives the same bytes. -/
+/-- **Round trip, any history** — for every kind of manifest, every history of add calls (accepted or refused), every
+compose section that validates, and whatever the header version was: `dumps` succeeds; `loads` of that text
+succeeds; the re-read mapping is the built mapping with sorted keys, i.e. Python-equal to it; the compose section
+is the same up to the documented normalisation (`final` travels only with a label: `c.norm`); the header carries
+the current version; a second `dumps` gives the same bytes. -/
 theorem C03_roundtrip (k : Kind) (ops : List AddOp) (hargs : ∀ op ∈ ops, op.argsRep = true)
-    (v0 : PyVal) (c : ComposeT) (hc : c.norm = c) (hv : composeValidate c.toObj = .ok ()) :
+    (v0 : PyVal) (c : ComposeT) (hv : composeValidate c.toObj = .ok ()) :
     ∃ rt, roundtrip k { version := v0, compose := c.toObj, payload := runOps empty ops } = .ok rt
       ∧ rt.reloaded.payload = PyVal.canon (runOps empty ops)
       ∧ PyVal.pyEq rt.reloaded.payload (runOps empty ops) = true
-      ∧ rt.reloaded.compose = c.toObj
-      ∧ rt.reloaded.version = .str currentVersion
-      ∧ rt.text2 = rt.text1 := by
-  have := C03_roundtrip_payload k v0 c (runOps empty ops) (C03_json_closed ops hargs) hv (by rw [hc]; exact hv)
-  rw [hc] at this
-  exact this
-
-/- Full statement for a compose section NOT in normal form (`final = True` without a label): the same, with the
-   re-read section equal to `c.norm` (label None, final False — the documented normalisation).  Proved below under
-   the additional explicit hypothesis that the normalised section validates too; what is missing is the derivation
-   of that from `hv` (the generated rule list reads `final` only under the guard `if self.label`, so it is true of
-   the current rules, but the rule interpreter has no "fields read" analysis yet). -/
-theorem C03_roundtrip_final_dropped_partial (k : Kind) (ops : List AddOp) (hargs : ∀ op ∈ ops, op.argsRep = true)
-    (v0 : PyVal) (c : ComposeT) (hv : composeValidate c.toObj = .ok ())
-    (hn : composeValidate c.norm.toObj = .ok ()) :
-    ∃ rt, roundtrip k { version := v0, compose := c.toObj, payload := runOps empty ops } = .ok rt
-      ∧ PyVal.pyEq rt.reloaded.payload (runOps empty ops) = true
       ∧ rt.reloaded.compose = c.norm.toObj
-      ∧ rt.text2 = rt.text1 := by
-  obtain ⟨rt, h1, _, h3, h4, _, h6⟩ :=
-    C03_roundtrip_payload k v0 c (runOps empty ops) (C03_json_closed ops hargs) hv hn
-  exact ⟨rt, h1, h3, h4, h6⟩
+      ∧ rt.reloaded.version = .str currentVersion
+      ∧ rt.text2 = rt.text1 :=
+  C03_roundtrip_payload k v0 c (runOps empty ops) (C03_json_closed ops hargs) hv (composeValidate_norm c hv)
+
+/-- the normalisation is the identity on the compose sections that a reader can produce: re-reading a re-read
+manifest changes nothing at all -/
+theorem C03_norm_idem (c : ComposeT) : c.norm.norm = c.norm := by
+  unfold ComposeT.norm
+  cases h : c.labelSet
+  · simp [ComposeT.labelSet, optStr, PyVal.truthy]
+  · simp [h]
+
+/-- obligation on the generated validators: the compose rules look at `final` only under `if self.label:` (this is
+what makes the normalised section valid again; it stops compiling if a validator starts reading `final`) -/
+theorem C03_final_only_with_label :
+    composeRules.all (ruleIndep (lit "final") (lit "label") [labelCustom]) = true := compose_rules_indep
 
 /-- a section with a label is in normal form -/
 theorem C03_norm_of_label (c : ComposeT) (h : c.labelSet = true) : c.norm = c := by simp [ComposeT.norm, h]
@@ -132,8 +128,10 @@ example : exampleCompose.norm = exampleCompose ∧ composeValidate exampleCompos
   refine ⟨C03_norm_of_label _ (by decide), by decide +kernel⟩
 
 example : composeValidate exampleComposeNoLabel.toObj = .ok ()
-    ∧ composeValidate exampleComposeNoLabel.norm.toObj = .ok () := by
-  constructor <;> decide +kernel
+    ∧ exampleComposeNoLabel.norm.final = false := by
+  constructor
+  · decide +kernel
+  · decide
 
 def exampleOps : List AddOp :=
   [.rpms { variant := lit "Server", arch := lit "x86_64", nevra := lit "foo-bar-1:2.0-3.el7.x86_64.rpm",
